@@ -916,11 +916,15 @@ func (prop c01) Execute(sc *sim.Scenario) *sim.Outcome {
 			return m
 		}
 		floor := map[int]float64{}
-		for _, st := range sc.Steps {
+		// consumers come after their operands in step order: walk backwards so
+		// that a consumer's own floor (its gradient may itself be a residue) is
+		// final before it is passed on to its operands
+		for si := len(sc.Steps) - 1; si >= 0; si-- {
+			st := sc.Steps[si]
 			if !have[st.Out] || len(st.In) == 0 {
 				continue
 			}
-			sm := 0.0
+			sm := floor[st.Out]
 			for _, a := range abs[st.Out] {
 				if a > sm && !math.IsInf(a, 0) {
 					sm = a
@@ -931,6 +935,9 @@ func (prop c01) Execute(sc *sim.Scenario) *sim.Outcome {
 				if m := vmax(o); m > v {
 					v = m
 				}
+			}
+			if m := vmax(st.Out); m > v {
+				v = m
 			}
 			if st.Op == "div" {
 				v *= 100
